@@ -213,10 +213,15 @@ pub fn alphabet(kind: &str, channels: &[u32]) -> Vec<Option<(u8, u8, u8)>> {
             for n in 0..64u8 { for v in [0u8, 1, 127] { a.push(Some((st, n, v))); } }
             a.push(Some((st, 64, 5)));           // non-contributing controller
             a.push(Some((st, 127, 0)));
+            // controllers that mean something to the OTHER scanners / to receivers ((N)RPN selection, channel mode):
+            // they must stay non-contributing here
+            for n in [98u8, 99, 100, 101, 96, 121] { for v in [0u8, 127] { a.push(Some((st, n, v))); } }
         } else {
             for n in [6u8, 38, 96, 97, 98, 99, 100, 101] { for v in [0u8, 1, 127] { a.push(Some((st, n, v))); } }
             a.push(Some((st, 7, 5)));
             a.push(Some((st, 102, 5)));
+            // controllers that mean something elsewhere (14-bit pairs, channel mode: reset all controllers, all notes off)
+            for n in [0u8, 32, 121, 123, 127] { a.push(Some((st, n, 0))); }
         }
         a.push(Some((0x90 + c as u8, 60, 100)));  // non-CC channel message
     }
@@ -289,6 +294,11 @@ fn random_msg(rng: &mut Rng, kind: &str) -> (u8, u8, u8) {
         // contributing control change
         let n = if kind == "cc" { rng.below(64) as u8 } else { [6u8, 38, 96, 97, 98, 99, 100, 101][rng.below(8) as usize] };
         (0xB0 + c, n, rng.below(128) as u8)
+    } else if r < 76 {
+        // controllers with a meaning of their own elsewhere in the protocol: (N)RPN selection and data for the 14-bit
+        // scanner, 14-bit pairs for the (N)RPN scanners, channel mode messages for both
+        let named = [6u8, 38, 96, 97, 98, 99, 100, 101, 120, 121, 122, 123, 124, 125, 126, 127, 0, 32, 1, 33, 64];
+        (0xB0 + c, named[rng.below(named.len() as u64) as usize], [0u8, 1, 64, 126, 127][rng.below(5) as usize])
     } else if r < 80 {
         (0xB0 + c, rng.below(128) as u8, rng.below(128) as u8)
     } else if r < 92 {
@@ -410,16 +420,19 @@ pub fn roundtrips(out: &mut Out, kind: &str, seed: u64, count: usize) {
         let fresh = k % 2 == 0;
         out.req(&format!("{} new 1", kind));
         let mut prior = String::new();
+        let c = rng.below(16) as u32;
         if !fresh {
             for _ in 0..rng.below(12) {
-                let (s, d1, d2) = random_msg(&mut rng, kind);
+                let (mut s, d1, d2) = random_msg(&mut rng, kind);
+                // most of the prior history happens on the channel the message will arrive on
+                if s < 0xF0 && rng.below(10) < 7 { s = (s & 0xF0) | c as u8; }
                 out.req(&format!("{} feed 1 raw {} {} {}", kind, s, d1, d2));
                 prior.push_str(&format!("{}.{}.{},", s, d1, d2));
             }
         }
-        let c = rng.below(16) as u32;
         if kind == "cc" {
-            let (msb, v) = (rng.below(32) as u32, if k % 5 == 0 { [0u32, 1, 127, 128, 16383][rng.below(5) as usize] } else { rng.below(16384) as u32 });
+            let msb = if k % 4 == 1 { [6u32, 0, 1, 7, 10, 11][rng.below(6) as usize] } else { rng.below(32) as u32 };   // controllers with LSB siblings named in the spec
+            let v = (if k % 5 == 0 { [0u32, 1, 127, 128, 16383][rng.below(5) as usize] } else { rng.below(16384) as u32 });
             let m = ControlChange14BitMessage::new(ch(c), cn(msb), v14(v));
             let ms: [RawShortMessage; 2] = m.to_short_messages();
             let sc = out.st.tables.cc[1].as_mut().unwrap();
